@@ -82,6 +82,16 @@ pub fn strategy() -> impl Strategy<Value = Case> {
     let small = gen::raw_config(8, 3, 2).prop_map(|raw| {
         let mut c = gen::build_config(&raw, CycleMode::Acyclic);
         c.sequences.insert("dev".into(), vec!["build".into(), "test é".into()]);
+        // several named entries in every name-keyed object, so that key order can matter
+        c.sequences.insert("check".into(), vec!["lint".into(), "zeta".into()]);
+        c.sequences.insert("release".into(), vec!["build".into(), "lint".into(), "zeta".into()]);
+        c.sequences.insert("all".into(), vec!["alpha".into()]);
+        for t in c.targets.iter_mut().take(2) {
+            t.command_defs.insert("build".into(), "tools/c18/build-impl.sh".into());
+            t.command_defs.insert("zeta".into(), "tools/c18/zeta.sh".into());
+            t.command_defs.insert("lint".into(), "tools/c18/lint.sh".into());
+            t.command_defs.insert("alpha".into(), String::new());
+        }
         c.max_retained_runs = Some(7);
         c
     });
@@ -89,13 +99,35 @@ pub fn strategy() -> impl Strategy<Value = Case> {
     (prop_oneof![3 => small, 2 => big], vec(layout(), 4..8)).prop_map(|(config, layouts)| Case { config, layouts })
 }
 
-const APIS: [&[&str]; 3] = [&["config", "show"], &["target", "show", "-g"], &["analyze", "--target-groups"]];
+const BASE_APIS: [&[&str]; 3] = [&["config", "show"], &["target", "show", "-g"], &["analyze", "--target-groups"]];
+/// for small configurations: APIs that look names up in `sequences` and `commands.definitions`
+const LOOKUP_APIS: [&[&str]; 4] = [
+    &["target", "show", "--commands"],
+    &["run", "-s", "check"],
+    &["run", "-s", "release"],
+    &["run", "-c", "build", "zeta", "alpha"],
+];
 
-fn observe(env: &mut Env) -> Vec<(Option<i32>, Option<Value>, String)> {
+fn apis(cfg: &ConfigSpec) -> Vec<&'static [&'static str]> {
+    let mut v: Vec<&'static [&'static str]> = BASE_APIS.to_vec();
+    if cfg.sequences.contains_key("check") {
+        v.extend(LOOKUP_APIS.iter().copied());
+    }
+    v
+}
+
+/// What a `run` decided: flag and per-command, per-group statuses (paths, ids and times left out).
+fn project_run(v: &Value) -> Value {
+    let n = bb::normalize_run_doc(v);
+    json!({"failed": n.get("failed"), "results": n.get("results"), "checkpointed": n.get("checkpointed")})
+}
+
+fn observe(env: &mut Env, apis: &[&'static [&'static str]]) -> Vec<(Option<i32>, Option<Value>, String)> {
     let mut v = vec![];
-    for api in APIS {
+    for api in apis {
         let o = env.mr(api);
-        v.push((o.code, o.json().map(|j| bb::strip_timestamp(&j)), o.stderr_str()));
+        let j = o.json().map(|j| if api[0] == "run" { project_run(&j) } else { bb::strip_timestamp(&j) });
+        v.push((o.code, j, o.stderr_str()));
     }
     v
 }
@@ -110,10 +142,16 @@ pub fn check(case: &Case, w: usize) -> CheckResult {
     if let Err(e) = valid {
         return inconclusive(format!("generated configuration is not valid: {}", e));
     }
+    let apis = apis(&case.config);
+    if apis.len() > BASE_APIS.len() {
+        for f in ["tools/c18/build-impl.sh", "tools/c18/zeta.sh", "tools/c18/lint.sh"] {
+            env.install_command(f, true);
+        }
+    }
     let compact = jsonw::write(&value, &Layout::compact());
     env.write_raw_config(&compact);
-    let reference = observe(&mut env);
-    for (i, api) in APIS.iter().enumerate() {
+    let reference = observe(&mut env, &apis);
+    for (i, api) in apis.iter().enumerate() {
         if reference[i].0 != Some(0) || reference[i].1.is_none() {
             return viol_obs(
                 "c18.compact.rejected",
@@ -132,8 +170,8 @@ pub fn check(case: &Case, w: usize) -> CheckResult {
             _ => return inconclusive("harness JSON writer produced a different value".into()),
         }
         env.write_raw_config(&bytes);
-        let got = observe(&mut env);
-        for (i, api) in APIS.iter().enumerate() {
+        let got = observe(&mut env, &apis);
+        for (i, api) in apis.iter().enumerate() {
             if got[i].0 != reference[i].0 || got[i].1 != reference[i].1 {
                 let sig = if bytes.len() > 8192 { "c18.differs.large" } else { "c18.differs" };
                 return viol_obs(
@@ -186,7 +224,7 @@ pub fn run(ctx: &mut Ctx) {
     ctx.rule = "a valid configuration value (small generated configs with nesting/uses/ignores/sequences, or 20-300 targets) x 4-8 serialisations by the harness's own writer: compact, pretty, \
 random inter-token whitespace, shuffled key order in every object, \\uXXXX escapes, whitespace padding before/inside/after the document up to 4000, 8191-8193, 16 KiB, 64 KiB, 200 KiB, and alignment of a non-ASCII character so that it ends before / straddles / starts at a multiple of 1-64 KiB. \
 oracle (metamorphic): the compact form is accepted, and every serialisation yields JSON-equal stdout (modulo timestamp) and equal exit status for `config show`, `target show -g`, \
-`analyze --target-groups`. non-trivial = some serialisation is larger than 8192 bytes and its first 8192 bytes are not a complete document; distinct by SHA-256"
+`analyze --target-groups`, and for the small configurations (4 named sequences, 4 command definitions on two targets) also `target show --commands`, `run -s check`, `run -s release`, `run -c build zeta alpha` (failed flag and statuses). non-trivial = some serialisation is larger than 8192 bytes and its first 8192 bytes are not a complete document; distinct by SHA-256"
         .to_string();
     ctx.assumptions = vec!["validity of the value is established through the in-process hook (serde + Index), independently of file reading".into()];
     let n = ctx.n(200, 4000);
